@@ -104,22 +104,22 @@ func ZZ_C20_X3a_dex_handlers_keep_holding_identity() {
 // new reserve; what leaves the pool is exactly what the accounts receive (nothing minted, nothing
 // burned); nobody receives more than the pro-rata share of the points they held; a provider that
 // did not ask keeps its points; nothing underflows. Bound: the reserves x and y are arbitrary
-// 62-bit / 64-bit values, provider points are taken from {1,3,10}, the dead address holds 1 or 1000
-// points and the percents are 0, 1, 50 or 100 (quick tier: provider 1 holds 10 points, provider 0 holds
-// 1 or 3, percents 0, 50, 100) - with symbolic points or percents the chained floor
+// 62-bit / 64-bit values, provider 1 holds 10 points, provider 0 holds 3 (quick) or 3 or 1 (thorough),
+// the dead address holds 1 or 1000 points and the percents are 50 or 100 (quick) or 0, 50, 100
+// (thorough) - with symbolic points or percents the chained floor
 // divisions have symbolic divisors, which none of the solvers decided even for values <= 63 (the
 // single SafeMulDiv floor lemma X2.md is proved at 64 bits for arbitrary operands).
 //
-//zz:harness mode=int unwind=60 maxpaths=600000 timebudget=7200 obtimeout=120 param.p0max@quick=1 param.p1min@quick=2 param.pctmax@quick=2 param.p0max@thorough=2 param.p1min@thorough=0 param.pctmax@thorough=3
+//zz:harness mode=int unwind=60 maxpaths=200000 timebudget=5400 obtimeout=120 param.p0max@quick=0 param.pctmax@quick=1 param.p0max@thorough=1 param.pctmax@thorough=2
 //zz:reach X3b.done X3b.paid
 func ZZ_C20_X3b_batch_withdraw_pays_shares_once() {
 	sm, _ := zzFSM(10)
 	total := zzWorld3(sm)
 	x, y := zzN64("x"), zzN64("y")
-	pts := []uint64{1, 3, 10}
+	pts := []uint64{3, 1, 10}
 	pd := []uint64{1, 1000}[zzConcrete(zzInt("deadPoints"), 0, 1)]
-	// quick: provider 0 holds 1 or 3 points, provider 1 holds 10; thorough: each of {1,3,10}
-	p0, p1 := pts[zzConcrete(zzInt("points0"), 0, zzParam("p0max", 2))], pts[zzConcrete(zzInt("points1"), zzParam("p1min", 0), 2)]
+	// provider 1 holds 10 points; provider 0 holds 3 (quick) or 3 or 1 (thorough)
+	p0, p1 := pts[zzConcrete(zzInt("points0"), 0, zzParam("p0max", 1))], pts[2]
 	zzAssume(total < 1<<62 && x < 1<<62)
 	// a pool that carries points holds tokens (SetPool deletes a pool whose balance is zero, points
 	// included); the obligation X3b.reserve-not-emptied keeps this inductive
@@ -144,7 +144,7 @@ func ZZ_C20_X3b_batch_withdraw_pays_shares_once() {
 	var pct [2]uint64
 	for i := 0; i < nw; i++ {
 		who[i] = zzConcrete(zzInt("withdrawer"), 0, 2) // 2 = holds no points
-		pct[i] = []uint64{0, 50, 100, 1}[zzConcrete(zzInt("percent"), 0, zzParam("pctmax", 3))]
+		pct[i] = []uint64{50, 100, 0}[zzConcrete(zzInt("percent"), 0, zzParam("pctmax", 2))]
 		batch.Withdrawals = append(batch.Withdrawals, &lib.DexLiquidityWithdraw{Address: zzAddr(who[i]), Percent: pct[i], OrderId: zzOrderId})
 	}
 	xx, yy := x, y
@@ -209,8 +209,8 @@ func ZZ_C20_X3b_batch_withdraw_pays_shares_once() {
 // C20 / X3c: batch settlement of liquidity deposits (the real handleBatchDeposit, local side), one
 // inductive step: a live pool (reserve x >= 1, mirror y >= 1, dead-address points plus one provider),
 // the holding pool holding the batch's deposits plus an arbitrary rest (next batch), and a batch of
-// one or two deposits by the existing provider or by newcomers, amounts arbitrary incl. 0 - the same
-// address may deposit twice. The AMOUNT of points minted is abstracted: liquidityDepositPoints and
+// one deposit (quick tier) or one or two (thorough) by the existing provider or by newcomers, amounts
+// arbitrary incl. 0 - the same address may deposit twice. The AMOUNT of points minted is abstracted: liquidityDepositPoints and
 // the pro-rata split lib.SafeMulDiv return arbitrary values here (their arithmetic is X2.lp / X2.md);
 // what is decided is the token and points BOOK-KEEPING, for any minted amounts whatsoever:
 // every deposit of the batch leaves the holding pool and reaches the liquidity pool - exactly once,
@@ -218,7 +218,7 @@ func ZZ_C20_X3b_batch_withdraw_pays_shares_once() {
 // is unchanged, the pool balance is the new reserve, points sum to the pool's total, no provider
 // loses points and no zero-point entry is created.
 //
-//zz:harness mode=int unwind=60 maxpaths=100000 timebudget=1500
+//zz:harness mode=int unwind=60 maxpaths=200000 timebudget=3600 param.maxdeposits@quick=1 param.maxdeposits@thorough=2
 //zz:stub github.com/canopy-network/canopy/fsm.liquidityDepositPoints harness zzArbitraryPoints
 //zz:stub github.com/canopy-network/canopy/lib.SafeMulDiv harness zzArbitraryShare
 //zz:reach X3c.done X3c.settled X3c.failed
@@ -231,7 +231,7 @@ func ZZ_C20_X3c_batch_deposit_moves_every_deposit_once() {
 	pd, p0 := zzN64("deadPoints"), zzN64("points0")
 	zzAssume(x >= 1 && y >= 1 && pd >= 1 && p0 >= 1)
 	zzAssume(total < 1<<60 && x < 1<<60 && rest < 1<<60 && pd < 1<<60 && p0 < 1<<60)
-	nd := zzConcrete(zzInt("deposits"), 1, 2)
+	nd := zzConcrete(zzInt("deposits"), 1, zzParam("maxdeposits", 2))
 	batch := &lib.DexBatch{Committee: 2}
 	var who [2]int
 	var amt [2]uint64
